@@ -325,7 +325,9 @@ class Ctx:
         path = self._write_replay(tag, replay)
         tail = " no-failing-input-found" if no_failing_input else ""
         line = f"VIOLATION property={self.pid} replay={path}{tail}"
-        if len(self.violations) < 20:
+        # a violation with a failing input is always printed (they are one per distinct failure key); lines that only say
+        # "this correspondence case no longer agrees" are capped
+        if not no_failing_input or sum(v.endswith("no-failing-input-found") for v in self.violations) < 20:
             print(line, flush=True)
         self.violations.append(line)
 
